@@ -1,16 +1,17 @@
-SPECIFICATION Spec
+INIT SimInit
+NEXT SimNext
 CONSTANTS
-  Inst = {a, b, c}
+  Inst = {a, b}
   Sh = {1}
-  MaxClaims = 3
+  MaxClaims = 4
   MaxDup = 1
-  MaxSnap = 0
+  MaxSnap = 1
   AllowLeave = FALSE
-  AllowRelease = FALSE
+  AllowRelease = TRUE
   TsFix = TRUE
   Late = {}
   NeedKnown = FALSE
-  SplitDeliver = FALSE
+  SplitDeliver = TRUE
   GuardedEvict = TRUE
-INVARIANTS SingleNewestOwner
+  Depth = 18
 CHECK_DEADLOCK FALSE
